@@ -142,7 +142,7 @@ def _callee_name(call):
 _EXTERNAL_SIGNATURES = {
     "np.full": ["shape", "fill_value", "dtype"], "np.zeros": ["shape", "dtype"], "np.ones": ["shape", "dtype"], "np.empty": ["shape", "dtype"],
     "np.array": ["object", "dtype"], "np.asarray": ["a", "dtype"], "np.arange": ["start", "stop", "step"], "np.repeat": ["a", "repeats", "axis"],
-    "np.tile": ["A", "reps"], "np.reshape": ["a", "newshape"], "np.concatenate": ["arrays", "axis"], "np.where": ["condition", "x", "y"],
+    "np.tile": ["A", "reps"], "np.reshape": ["a", "newshape"],
     "np.isin": ["element", "test_elements"], "np.searchsorted": ["a", "v", "side"], "np.sum": ["a", "axis"], "np.max": ["a", "axis"], "np.min": ["a", "axis"],
     "np.mean": ["a", "axis"], "np.any": ["a", "axis"], "np.all": ["a", "axis"], "np.sort": ["a", "axis"], "np.append": ["arr", "values", "axis"],
     "np.delete": ["arr", "obj", "axis"], "np.insert": ["arr", "obj", "values", "axis"], "np.take": ["a", "indices", "axis"],
@@ -150,7 +150,7 @@ _EXTERNAL_SIGNATURES = {
     "np.linspace": ["start", "stop", "num"], "np.full_like": ["a", "fill_value", "dtype"], "np.zeros_like": ["a", "dtype"],
     "np.unique": ["ar"], "np.argsort": ["a", "axis"], "np.cumsum": ["a", "axis"], "np.diff": ["a", "n", "axis"], "np.isclose": ["a", "b"],
     "np.allclose": ["a", "b"], "np.array_equal": ["a1", "a2"], "np.frombuffer": ["buffer", "dtype"], "np.fromiter": ["iter", "dtype"],
-    "np.matmul": ["x1", "x2"], "np.dot": ["a", "b"], "np.cross": ["a", "b"], "np.round": ["a", "decimals"], "np.ceil": ["x"], "np.sqrt": ["x"],
+    "np.cross": ["a", "b"], "np.round": ["a", "decimals"],
     ".astype": ["dtype"], ".reshape": ["shape"], ".sum": ["axis"], ".mean": ["axis"], ".min": ["axis"], ".max": ["axis"], ".any": ["axis"], ".all": ["axis"],
     ".ljust": ["width", "fillchar"], ".rjust": ["width", "fillchar"], ".split": ["sep", "maxsplit"], ".replace": ["old", "new", "count"],
     ".get": ["key", "default"], ".encode": ["encoding"], ".decode": ["encoding"], ".join": ["iterable"],
@@ -472,7 +472,10 @@ def propagate_new_constants(tree, ref_globals, rel=None):
     # if/for/try/with, augmented assignments, imports, defs) and no function declares it `global`
     all_counts = _scope_binding_counts(tree.body)
     declared_global = {nm_ for x in ast.walk(tree) if isinstance(x, ast.Global) for nm_ in x.names}
-    consts = {k: v for k, v in consts.items() if counts.get(k) == 1 and all_counts.get(k) == 1 and k not in declared_global}
+    # a name that is also written as TEXT somewhere in the module (`setattr(obj, "_X", ..)` under another spelling, a namespace
+    # dict `{"_X": 0}` handed to a metaclass, `getattr(self, "_X")`) may be bound or read by reflection: it is left alone
+    spelled = {x.value for x in ast.walk(tree) if isinstance(x, ast.Constant) and isinstance(x.value, str) and x.value.isidentifier()}
+    consts = {k: v for k, v in consts.items() if counts.get(k) == 1 and all_counts.get(k) == 1 and k not in declared_global and k not in spelled}
     par = None
     # a list / dict / set is an object, not a value: it stands for its literal only if every read in the module is one that
     # cannot change it or hand it on (`TABLE.reverse()`, `f(TABLE)`, `x = TABLE` keep the name)
@@ -494,7 +497,8 @@ def propagate_new_constants(tree, ref_globals, rel=None):
         cc = {st.targets[0].id: st.value for st in cnode.body if isinstance(st, ast.Assign) and len(st.targets) == 1
               and isinstance(st.targets[0], ast.Name) and _is_literal(st.value) and st.targets[0].id.startswith("_")
               and counts_c.get(st.targets[0].id) == 1 and st.targets[0].id not in attr_stores and not dynamic_setattr
-              and f"{cnode.name}.{st.targets[0].id}" not in ref_globals and st.targets[0].id not in ref_globals}
+              and f"{cnode.name}.{st.targets[0].id}" not in ref_globals and st.targets[0].id not in ref_globals
+              and st.targets[0].id not in spelled}
         if not cc:
             continue
         # `self._X` / `cls._X` is looked up in the class of the object: a subclass (here or in another module) that binds the
@@ -661,6 +665,15 @@ def _literal_iter(st):
         items = [ast.Tuple(elts=[ast.Constant(k + start.value), e], ctx=ast.Load()) for k, e in enumerate(it.args[0].elts)]
     elif isinstance(it, ast.Call) and isinstance(it.func, ast.Attribute) and it.func.attr == "items" and isinstance(it.func.value, ast.Dict) \
             and all(k is not None for k in it.func.value.keys):
+        # a dict has one entry per key: the keys of the display must be literals that are pairwise different (1 == 1.0 == True)
+        try:
+            kv = [ast.literal_eval(k) for k in it.func.value.keys]
+            if len(set(kv)) != len(kv):
+                return None
+        except Exception:
+            if len({ast.dump(k) for k in it.func.value.keys}) != len(it.func.value.keys) or not all(
+                    isinstance(k, (ast.Name, ast.Attribute)) for k in it.func.value.keys):
+                return None
         items = [ast.Tuple(elts=[k, v], ctx=ast.Load()) for k, v in zip(it.func.value.keys, it.func.value.values)]
     if items is None or len(items) > MAX_UNROLL or any(isinstance(x, ast.Starred) for x in items):
         return None
@@ -1451,6 +1464,8 @@ def inline_new_helpers(tree, ref_funcs, rel=None):
         if still and any(n is not fn and isinstance(n, (ast.Name, ast.Attribute)) and getattr(n, "id", getattr(n, "attr", None)) == name
                          and not _inside(fn, n) for n in ast.walk(tree)):
             continue
+        if not all(_effect_free_argument(d) for d in list(fn.args.defaults) + [d for d in fn.args.kw_defaults if d is not None] + list(fn.decorator_list)):
+            continue        # the def statement itself evaluates its defaults and decorators where it stands
         _remove_def(tree, fn)
     return count
 
